@@ -14,7 +14,7 @@ func init() {
 		Explanation: "Decides that every blocking primitive in the package has an escape that the teardown paths actually trigger: each blocking select has an arm on a channel that a teardown role closes (Session.shutdownCh, Stream.closeNotifyCh, listener.closeCh, ctx.Done()) or on a timer armed in the same function; every bare channel send/receive, WaitGroup.Wait and sleep is classified in a frozen table with its reason and side-condition (closer exists and is once-guarded; counterpart event guaranteed); " +
 			"Session.Close wakes every stream (closes each notify channel under the stream lock) and closes shutdownCh before it posts the teardown; every transition of a stream away from opened closes its notify channel (directly, or through the close routine for the deferred local close); readMore re-checks buffered data before the first wait and after every wake-up and arms/stops the deadline timer; Flush's queue-full retry loop is bounded by a constant. " +
 			"NOT decided: every timing claim (never early, within a bounded time) and lost-notification schedules between entering the wait and the event.",
-		RuleText: "R11.1 census of every select/send/receive/Wait/Sleep instruction of the package, each classified (a) select with escape arm, (b) receive on a channel closed by a teardown role, (c) paired protocol event, (d) listed exception; closers verified; R11.2 ordering in Session.Close; R11.3 per CAS leaving streamOpened; R11.4 per wake-up arm of readMore; R11.5 loop bound of Flush.",
+		RuleText: "R11.1 census of every select/send/receive/Wait/Sleep instruction of the package, each classified (a) select with escape arm, (b) receive on a channel closed by a teardown role, (c) paired protocol event, (d) listed exception; closers verified; R11.2 ordering in Session.Close; R11.3 per CAS leaving streamOpened; R11.4 per wake-up arm of readMore; R11.5 loop bound of Flush; R11.6 re-arming of one-shot timers that are awaited again in a loop.",
 		Run:      runC11,
 	})
 }
@@ -77,7 +77,6 @@ func runC11(p *P, r *R) {
 		n := len(p.closesChan(f, fld))
 		r.ob("R11.1", "escape channel "+fld+" is closed by "+closer, "", n > 0, true, "a wait whose escape is never triggered is no escape")
 	}
-	sessClose := p.fn("(*Session).Close")
 	// the session's CloseChan() is its shutdownCh
 	closeChanOK := false
 	if f := p.fn("(*Session).CloseChan"); f != nil {
@@ -210,51 +209,7 @@ func runC11(p *P, r *R) {
 	}
 
 	// ---- R11.2 Session.Close order
-	if sessClose == nil {
-		r.fail("R11.2", "anchor (*Session).Close", "", "not found")
-	} else {
-		casM := p.mAtomic("CAS", "Session.shutdown")
-		notifies := findInstrs(sessClose, p.mCall("(*Stream).safeCloseNotify"))
-		closes := p.closesChan(sessClose, "Session.shutdownCh")
-		var posts []ssa.Instruction
-		allInstrs(sessClose, func(in ssa.Instruction) {
-			if c, ok := in.(*ssa.Call); ok && c.Call.IsInvoke() && c.Call.Method.Name() == "post" {
-				posts = append(posts, in)
-			}
-		})
-		r.count("R11.2", "safeCloseNotify calls in Session.Close", len(notifies), 1)
-		r.count("R11.2", "teardown posts in Session.Close", len(posts), 1)
-		held, _ := p.heldBefore(sessClose, p.mutexRegion("Session.streamLock"), false)
-		for _, ni := range notifies {
-			r.ob("R11.2", "Session.Close: every stream's notify channel is closed on the CAS-success path, under streamLock", p.ipos(ni), p.guardedByCall(ni, casM, true) && held[ni], true, "")
-			// it iterates the whole table
-			ranged := false
-			if e, ok := ni.(*ssa.Call).Call.Args[0].(*ssa.Extract); ok {
-				if nx, ok := e.Tuple.(*ssa.Next); ok {
-					if rg, ok := nx.Iter.(*ssa.Range); ok && isLoadOf(rg.X, "Session.streams") {
-						ranged = true
-					}
-				}
-			}
-			r.ob("R11.2", "Session.Close: the wake-up loop ranges over the whole stream table", p.ipos(ni), ranged, true, "")
-		}
-		for _, po := range posts {
-			okOrder := len(closes) > 0
-			for _, c := range closes {
-				if !instrDominates(c, po) {
-					okOrder = false
-				}
-			}
-			// the loop must be complete before the post: the post is not inside the range loop and is reachable only after it
-			for _, ni := range notifies {
-				if !p.reaches(ni, po, nil) || p.reaches(po, ni, nil) {
-					okOrder = false
-				}
-			}
-			r.ob("R11.2", "Session.Close: streams are woken and shutdownCh is closed before the teardown is posted", p.ipos(po), okOrder, true,
-				"a blocked reader must be released by the notify channel before its buffers disappear")
-		}
-	}
+	closeWakesStreams(p, r, "R11.2")
 
 	// ---- R11.3 every departure from opened closes the notify channel
 	casS := p.mAtomic("CAS", "Stream.state")
@@ -318,6 +273,7 @@ func runC11(p *P, r *R) {
 
 	c11ReadMore(p, r)
 	c11FlushBound(p, r)
+	r.count("R11.6", "one-shot timers awaited in loops", timerRearmed(p, r, "R11.6", nil), 1)
 }
 
 func chanNameAddr(p *P, v ssa.Value) string {
@@ -531,4 +487,108 @@ func c11FlushBound(p *P, r *R) {
 		}
 	}
 	r.ob("R11.5", "Flush: each retry wait ends on the retry timer, the write deadline or stream close", p.ipos(sel), hasClose && hasTimer, true, "")
+}
+
+// closeWakesStreams (R11.2 / R14.6): Session.Close closes every stream's notify channel (under the
+// stream lock, over the whole table) and shutdownCh on the CAS-success path, before the teardown is
+// posted to the event loop.
+func closeWakesStreams(p *P, r *R, rule string) {
+	sessClose := p.fn("(*Session).Close")
+	if sessClose == nil {
+		r.fail(rule, "anchor (*Session).Close", "", "not found")
+	} else {
+		casM := p.mAtomic("CAS", "Session.shutdown")
+		notifies := findInstrs(sessClose, p.mCall("(*Stream).safeCloseNotify"))
+		closes := p.closesChan(sessClose, "Session.shutdownCh")
+		var posts []ssa.Instruction
+		allInstrs(sessClose, func(in ssa.Instruction) {
+			if c, ok := in.(*ssa.Call); ok && c.Call.IsInvoke() && c.Call.Method.Name() == "post" {
+				posts = append(posts, in)
+			}
+		})
+		r.count(rule, "safeCloseNotify calls in Session.Close", len(notifies), 1)
+		r.count(rule, "teardown posts in Session.Close", len(posts), 1)
+		held, _ := p.heldBefore(sessClose, p.mutexRegion("Session.streamLock"), false)
+		for _, ni := range notifies {
+			r.ob(rule, "Session.Close: every stream's notify channel is closed on the CAS-success path, under streamLock", p.ipos(ni), p.guardedByCall(ni, casM, true) && held[ni], true, "")
+			// it iterates the whole table
+			ranged := false
+			if e, ok := ni.(*ssa.Call).Call.Args[0].(*ssa.Extract); ok {
+				if nx, ok := e.Tuple.(*ssa.Next); ok {
+					if rg, ok := nx.Iter.(*ssa.Range); ok && isLoadOf(rg.X, "Session.streams") {
+						ranged = true
+					}
+				}
+			}
+			r.ob(rule, "Session.Close: the wake-up loop ranges over the whole stream table", p.ipos(ni), ranged, true, "")
+		}
+		for _, po := range posts {
+			okOrder := len(closes) > 0
+			for _, c := range closes {
+				if !instrDominates(c, po) {
+					okOrder = false
+				}
+			}
+			// the loop must be complete before the post: the post is not inside the range loop and is reachable only after it
+			for _, ni := range notifies {
+				if !p.reaches(ni, po, nil) || p.reaches(po, ni, nil) {
+					okOrder = false
+				}
+			}
+			r.ob(rule, "Session.Close: streams are woken and shutdownCh is closed before the teardown is posted", p.ipos(po), okOrder, true,
+				"a blocked reader must be released by the notify channel before its buffers disappear")
+		}
+	}
+
+}
+
+// timerRearmed (R11.6 / R17.1): a one-shot timer (time.Timer) awaited by a select inside a loop must be
+// re-armed (time.NewTimer / Reset) on every path that leads from its own arm back to the select;
+// otherwise the second wait never ends (the channel was drained). Tickers repeat by themselves.
+func timerRearmed(p *P, r *R, rule string, only func(f *ssa.Function) bool) int {
+	n := 0
+	for _, f := range p.fnList {
+		if only != nil && !only(f) {
+			continue
+		}
+		allInstrs(f, func(in ssa.Instruction) {
+			sel, ok := in.(*ssa.Select)
+			if !ok || !sel.Blocking {
+				return
+			}
+			for k, st := range sel.States {
+				if !isTimerField(st.Chan, "Timer.C") {
+					if ph, isPhi := st.Chan.(*ssa.Phi); !isPhi || !isTimerChan(ph, 2) {
+						continue
+					}
+				}
+				// the arm's block
+				for _, b := range f.Blocks {
+					for i := range b.Succs {
+						s2, kk, eq := selectEdge(b, i)
+						if s2 != sel || !eq || kk != int64(k) {
+							continue
+						}
+						arm := b.Succs[i]
+						rearm := func(i2 ssa.Instruction) bool {
+							c, okc := i2.(*ssa.Call)
+							if !okc {
+								return false
+							}
+							nm := p.calleeName(&c.Call)
+							return nm == "time.NewTimer" || nm == "(*time.Timer).Reset" || nm == "time.After"
+						}
+						if !p.reachesWithout(Point{arm, -1}, sel, nil, nil) {
+							continue // the arm leaves the loop
+						}
+						n++
+						bad := p.reachesWithout(Point{arm, -1}, sel, rearm, nil)
+						r.ob(rule, p.fname(f)+": a one-shot timer awaited in a loop is re-armed before every further wait", p.ipos(sel), !bad, true,
+							"after the timer fired once its channel stays empty: a second wait on it never ends (e.g. the retry after a failed reconnect)")
+					}
+				}
+			}
+		})
+	}
+	return n
 }
